@@ -19,6 +19,10 @@ claimed = {
          "Theorems: delete of an entry removes exactly it (lookup gives none, every other key keeps its entry, siblings untouched); delete of a container/list empties exactly that child; replace = exactly the supplied content with defaults, independent of the old content; upsert of an existing key merges and never appends; every operation preserves 'conforming ∧ no list holds two entries with equal keys at any depth', hence every history does; an entry is found under its own key. Tie: sequences of 1–12 operations at root/container/entry locations on the reference store and on reflection over maps, compared with the model after each step.",
          "Trusted: Lean kernel, harness, reference store. Histories end at their first failing request (partial effects of a failed edit are unspecified). Slice/struct-backed reflection targets are not yet in the sequence stream.",
          "DESIGN.md §8 C18"),
+ "C04": ("Lean 4 theorems: export (the editor's walk into a fresh target) = the data plus defaults of created nodes, from the C03 editor/merge theorems; JSON reader∘writer = id on tokens and strings from the C15 theorems; correspondence of export from 3 source implementations and of the write→read→upsert round trip in 4 configurations",
+         "Theorems (every schema, every conforming tree with unique keys): editKids upsert src (empty) = withDefaults src — every set leaf, existing container and entry exactly once, entries in source order with their keys, nothing else but defaults below created nodes; token-level JSON round trip and string round trip. Tie: generated schemas with every leaf type (64-bit extremes, decimal64, empty, enum, bits, identityref, union, leaf-lists, defaults, imported grouping): export from reference store / reflection over maps / nodeutil.Node into a fresh store compared with model and Spec; JSONWtr (compact/pretty × qualified/unqualified) → ReadJSON → UpsertFrom compared with the original.",
+         "Trusted: Lean kernel, harness, reference store. Leaf values are compared through the library's own canonical text (val.String()); exactness of the values themselves is C10. Choices are covered by C09, not here.",
+         "DESIGN.md §8 C04"),
  "C05": ("Lean 4 theorems over the range/length/pattern/membership check model (hand-written port of meta.Range*/fieldConstraints/NewValue front end); correspondence on generated modules through three write paths with store before/after comparison",
          "Theorems (every restriction, every typedef chain, every value): a value accepted by the check lies in an alternative of the restriction of every level (min/max = base-type bounds); conversely well-formed restrictions accept every member; each leaf-list element is checked on its own; a rejected write leaves the store unchanged and an accepted one stores the checked value; enum/bits/identityref/union acceptance implies declared membership. Tie: generated modules (all numeric bases, decimal64, string length, chains of depth 0-3, min/max, alternatives) × boundary candidate values × SetValue / UpsertFrom(JSON) / UpsertFrom(node), outcome and store compared with model and oracle.",
          "Trusted: Lean kernel, harness, regexp (uninterpreted predicate), float64 order on ≤2-fraction-digit decimals. Model is hand-written (no translator); patterns OR-ed is a recorded known finding (pinned by the repo's own test); union member restrictions are not enforced by the library and are outside the generated cases.",
